@@ -253,7 +253,10 @@ def compiled_model_samples(run, m, n, rng):
     fails = 0
     cal_syms = sorted(m.symbolic_model.calibration, key=lambda s: s.name)
     for cse in (True, False):
-        for cal_round in range(max(1, n // 6)):
+        # every calibration's model is compiled FIRST, from the one reference definition, and all of them stay alive; only then is each
+        # evaluated against the kinematics with ITS OWN calibration (a later compile must not reach into an earlier model)
+        alive = []
+        for cal_round in range(max(2, n // 6)):
             cal = {kk: float(v) for kk, v in random_point(rng).items()}
             # the calibration map is written in an order of the caller's choosing (here: shuffled, never the name-sorted one)
             order = list(cal_syms)
@@ -261,6 +264,8 @@ def compiled_model_samples(run, m, n, rng):
             if order == cal_syms and len(order) > 1:
                 order.reverse()
             model = py.compile(m.symbolic_model, calibration_map={s: cal.get(s.name, 0.25) for s in order}, config={"common_subexpression_elimination": cse})
+            alive.append((model, cal))
+        for model, cal in alive:
             for k in range(min(n, 6)):
                 pt = {kk: float(v) for kk, v in random_point(rng).items()}
                 pt.update({s.name: cal.get(s.name, 0.25) for s in cal_syms})
